@@ -143,6 +143,20 @@ def check(case):
                 if len(items) > 1:
                     tags.add("nan_cell_beside_other_metric")
                 continue
+            dense = all((c_ & s_).sum() > 0 for c_ in cmasks.values() for s_ in smasks.values())  # no NaN cell: integer columns stay integer
+            if dense and it["func"] == "bigint" and all(i["func"] in ("bigint", "count", "npint") for i in items):
+                # integer-valued metrics beyond 2**53 (all columns integral): the aggregates are exact integers
+                cm = cmasks[ck]
+                ivals = [int(M.ref_metric(it, case, cm & sm)) for sm in smasks.values() if (cm & sm).sum() > 0]
+                iov = int(M.ref_metric(it, case, cm))
+                iexp = {"min": min(ivals), "max": max(ivals), ("difference", "between_groups"): max(ivals) - min(ivals),
+                        ("difference", "to_overall"): max(abs(v - iov) for v in ivals)}
+                for errors in ("raise", "coerce"):
+                    for key, e in iexp.items():
+                        got = results[(key, errors)][ck][j] if isinstance(key, str) else results[key + (errors,)][ck][j]
+                        M.need(np.ndim(got) == 0 and not isinstance(got, float) and int(got) == e,
+                               f"{key} (errors={errors}) of an integer-valued metric {where} = {got!r}, exact value {e}; groups {ivals}, overall {iov}")
+                tags.add("integer_metric_beyond_2**53")
             mn, mx, ov = min(vals), max(vals), overall[j]
             sc = max(abs(mn), abs(mx), abs(ov), 1e-300)  # operand magnitude: comparisons are relative to it
             if len(set(vals)) > 1:
@@ -235,7 +249,7 @@ def _strategy(draw):
 
 def _base_strategy():
     return M.mf_case(
-        metric_keys=("selection_rate", "selection_rate", "wmean", "mean_prediction", "wmean", "count", "lin", "tiny", "nanhit"),
+        metric_keys=("selection_rate", "selection_rate", "wmean", "mean_prediction", "wmean", "count", "lin", "tiny", "nanhit", "bigint", "bigint"),
         allow_collisions=False,
     )
 
